@@ -168,16 +168,17 @@ inductive RdRes where
   | ok
   | err (e : Nat)    -- errno, never 0
 
-/-- `net_read(fatal)`; an exhausted script reads as a closed connection -/
+/-- `net_read(fatal)`; an exhausted script reads as a closed connection.  `linein.len` is reset
+at the start of every call, so a failed call leaves no line behind. -/
 def netRead (fatal : Bool) (s : St) : Out RdRes :=
   match s.script with
-  | [] => if fatal then dieerror ECONNRESET s else .ret (.err ECONNRESET) s
+  | [] => if fatal then dieerror ECONNRESET s else .ret (.err ECONNRESET) { s with lin := [] }
   | .line l :: rest => .ret .ok { s with script := rest, lin := l }
-  | .err e :: rest => .ret (.err (if e = 0 then 5 else e)) { s with script := rest }  -- a failed call never leaves errno 0
+  | .err e :: rest => .ret (.err (if e = 0 then 5 else e)) { s with script := rest, lin := [] }  -- a failed call never leaves errno 0
   | .eof :: rest =>
-    if fatal then dieerror ECONNRESET { s with script := rest } else .ret (.err ECONNRESET) { s with script := rest }
+    if fatal then dieerror ECONNRESET { s with script := rest } else .ret (.err ECONNRESET) { s with script := rest, lin := [] }
   | .timeout :: rest =>
-    if fatal then dieerror ETIMEDOUT { s with script := rest } else .ret (.err ETIMEDOUT) { s with script := rest }
+    if fatal then dieerror ETIMEDOUT { s with script := rest } else .ret (.err ETIMEDOUT) { s with script := rest, lin := [] }
 
 /-! ### reply.c: netget -/
 
@@ -399,6 +400,8 @@ def connectMx (helo : List Byte) : Nat → St → Out Int
     (netget false s0).bind fun sc s1 =>
       if sc < 0 then
         if sc = -(ECONNRESET : Int) then connectMx helo fuel { s1 with sock := false }      -- connection_died()
+        else if sc = -(ETIMEDOUT : Int) ∧ Gen.Qr.greetTimeoutNextMx = 1 then
+          (quitmsgIfNet sc s1).bind fun _ s2 => connectMx helo fuel s2
         else if sc = -(EINVAL : Int) then (quitmsg s1).bind fun _ s2 => connectMx helo fuel s2
         else shutdownAbort (if Gen.Qr.stGreetFail = [] then s1 else writeStatus Gen.Qr.stGreetFail s1)
       else
